@@ -471,4 +471,91 @@ theorem step_WF (w : World) (op : Op) (h : WF w) : WF (step w op).1 := by
   case sortOk orders => exact sortApply_WF _ _ h
   case sortCycle => exact h
 
+
+/-! ### composite calls -/
+
+theorem andThen_WF (r : World × Outcome) (f : World → World × Outcome) (h : WF r.1)
+    (hf : ∀ w, WF w → WF (f w).1) : WF (andThen r f).1 := by
+  unfold andThen; split
+  · exact hf _ h
+  · exact h
+
+theorem rauwSeq_WF (rgo : Bool) : ∀ (ps : List (Nat × Nat)) (w : World), WF w → WF (rauwSeq w rgo ps).1
+  | [], _, h => h
+  | (v, r) :: rest, w, h => by
+    unfold rauwSeq
+    exact andThen_WF _ _ (rauw_WF w v r rgo h) (fun w1 h1 => rauwSeq_WF rgo rest w1 h1)
+
+theorem rauwMany_WF (w : World) (vs rs : List Nat) (rgo : Bool) (h : WF w) : WF (rauwMany w vs rs rgo).1 := by
+  unfold rauwMany; split
+  · exact h
+  · exact rauwSeq_WF _ _ _ h
+
+theorem setNameIfPlain_WF (w : World) (v : Nat) (s : Option String) (h : WF w) : WF (setNameIfPlain w v s) := by
+  unfold setNameIfPlain; split
+  · exact h
+  · rename_i hc
+    exact setNamePlain_WF _ _ _ h (by simp at hc; simpa using hc.1)
+
+theorem renameValues_WF (w : World) (vs : List Nat) (names : List String) (h : WF w) :
+    WF (renameValues w vs names).1 := by
+  unfold renameValues
+  split
+  · exact h
+  · split
+    · exact h
+    · apply guardOp_WF _ _ _ _ h
+      apply foldl_inv WF _ _ _ _ _
+      · intro a p ha; split
+        · exact initPut_WF _ _ _ _ ha
+        · exact ha
+      · apply foldl_inv WF _ (fun a p ha => setNameIfPlain_WF a _ _ ha)
+        apply foldl_inv WF _ _ _ _ h
+        intro a p ha; split
+        · exact initDel_WF _ _ _ ha
+        · exact ha
+
+theorem copyInfo_WF : ∀ (ps : List (Nat × Nat)) (w : World), WF w → WF (copyInfo w ps).1
+  | [], _, h => h
+  | (o, n) :: rest, w, h => by
+    unfold copyInfo
+    simp only []
+    have h1 : WF (match (w.val o).const with
+        | some t => w.setVal n { w.val n with const := some t }
+        | none => w) := by
+      split
+      · apply WF_of_same_core _ _ _ h
+        · intro u; simp; split
+          · subst_vars; simp
+          · simp
+        · intro m; exact ⟨rfl, rfl, rfl⟩
+        · intro g; exact ⟨rfl, rfl, rfl, rfl, rfl, rfl⟩
+      · exact h
+    apply andThen_WF _ _ _ (fun w2 h2 => copyInfo_WF rest w2 h2)
+    split
+    · exact setName_WF _ _ _ h1
+    · exact h1
+
+theorem replaceNodesAndValues_WF (w : World) (g ip : Nat) (oldNodes newNodes oldVals newVals : List Nat)
+    (h : WF w) : WF (replaceNodesAndValues w g ip oldNodes newNodes oldVals newVals).1 := by
+  unfold replaceNodesAndValues
+  apply andThen_WF _ _ (copyInfo_WF _ _ h)
+  intro w1 h1
+  apply andThen_WF _ _ (rauwMany_WF _ _ _ _ h1)
+  intro w2 h2
+  apply andThen_WF _ _ (graphInsertAfter_WF _ _ _ _ h2)
+  intro w3 h3
+  exact graphRemove_WF _ _ _ _ h3
+
+theorem stepConv_WF (w : World) (op : ConvOp) (h : WF w) : WF (stepConv w op).1 := by
+  cases op <;> simp only [stepConv]
+  case rauwMany vs rs rgo => exact rauwMany_WF _ _ _ _ h
+  case renameValues vs names => exact renameValues_WF _ _ _ h
+  case replaceNodesAndValues g ip a b c d => exact replaceNodesAndValues_WF _ _ _ _ _ _ _ h
+
+theorem stepAny_WF (w : World) (op : AnyOp) (h : WF w) : WF (stepAny w op).1 := by
+  cases op with
+  | one op => exact step_WF w op h
+  | conv op => exact stepConv_WF w op h
+
 end IrVerif.Kernel
